@@ -156,6 +156,7 @@ TEMPLATES = {
     "ymd_dash": [("Y", 4), "-", ("m", 2), "-", ("d", 2)],
     "ymd_time": [("Y", 4), "/", ("m", 2), "/", ("d", 2), " ", ("H", 2), ":", ("M", 2)],
     "ymd_time_s": [("Y", 4), "-", ("m", 2), "-", ("d", 2), " ", ("H", 2), ":", ("M", 2), ":", ("S", 2)],
+    "ymd_time_dot": [("Y", 4), "/", ("m", 2), "/", ("d", 2), " ", ("H", 2), ".", ("M", 2)],     # clock time written HH.MM
 }
 
 
